@@ -84,8 +84,8 @@ impl ExprStream {
     pub fn new(tier: Tier, seed: u64, scale: usize) -> Self {
         let corpus = gexpr::corpus();
         let (sweep_len, generated, mutated, shapes) = match tier {
-            Tier::Quick => (2, 2500 * scale / 10, 1200 * scale / 10, 600 * scale / 10),
-            Tier::Thorough => (3, 40000 * scale / 10, 15000 * scale / 10, 8000 * scale / 10),
+            Tier::Quick => (2, 9000 * scale / 10, 4000 * scale / 10, 2500 * scale / 10),
+            Tier::Thorough => (3, 80000 * scale / 10, 30000 * scale / 10, 16000 * scale / 10),
         };
         ExprStream {
             corpus,
